@@ -301,8 +301,11 @@ package storage
 //@   ensures  found:        result1 == nil ==> result0 != nil
 //@   ensures  contains-low:  result1 == nil ==> result0.Start <= start
 //@   ensures  contains-high: result1 == nil ==> start < result0.End
+//@   at-call segmentController.load requires new-range-disjoint: arg1 < arg2 && (forall k :: 0 <= k && k < len(sc.lst) ==> sc.lst[k].End <= arg1 || arg2 <= sc.lst[k].Start)
 //@   loop 0 invariant last == len(sc.lst) - 1 && start == old(start)
 //@   loop 0 invariant nohit: forall k :: last - range_i < k && k <= last ==> !(sc.lst[k].Start <= start && start < sc.lst[k].End)
 //@   loop 1 invariant bump: alignedStart <= start && start <= old(start) && stdEnd == gridNext(alignedStart) && old(start) < stdEnd
 //@   loop 1 invariant nohit: forall k :: 0 <= k && k < len(sc.lst) ==> !(sc.lst[k].Start <= old(start) && old(start) < sc.lst[k].End)
 //@   loop 1 invariant nxt: next == nil || (next.Start > old(start) && pidx(next) == 0)
+//@   loop 1 invariant behind: forall k :: 0 <= k && k < range_i ==> sc.lst[k].End <= start || (next != nil && sc.lst[k].Start >= next.Start)
+//@   loop 1 invariant nearest: next != nil ==> next.Start > start && next.End > old(start) && (exists m :: 0 <= m && m < range_i && sc.lst[m] == next)
